@@ -83,6 +83,11 @@ func renderAttrs(attrs []html.Attribute) string {
 		}
 
 		sb.WriteByte(' ')
+		if a.Namespace != "" {
+			// xlink:href, xml:lang on foreign (SVG, MathML) elements
+			sb.WriteString(a.Namespace)
+			sb.WriteByte(':')
+		}
 		sb.WriteString(key)
 		sb.WriteByte('=')
 		sb.WriteByte('"')
